@@ -65,6 +65,8 @@ def handleCursor (fs : List (String × String)) : String := Id.run do
     | _ =>
       if post.idx != c.idx || post.nodes.map (·.name) != c.nodes.map (·.name) then
         agree := false; notes := s!"op{idx}:{opS}:cursor-or-order-changed" :: notes
+        if bad.isNone && (opS.startsWith "G" || opS.startsWith "X") then
+          bad := some s!"member-list-reordered-outside-the-wrap-around:{opS}@op{idx}"
       c := post
     idx := idx + 1
   return verdict agree bad (probes ≥ 5) s!"cursor{min (probes / 5) 4}" (String.intercalate ";" (notes.reverse.take 2))
